@@ -228,7 +228,10 @@ func (tnc *TNC) runControlLoop() error {
 					select {
 					case tnc.dataIn <- d.data:
 					case <-time.After(time.Minute):
-						go tnc.Disconnect() // Buffer full and timeout
+						// Buffer full and timeout. End the data stream here, in the goroutine that feeds it:
+						// Disconnect (running concurrently) would otherwise close the channel under the next frame.
+						tnc.eof()
+						go tnc.Disconnect()
 					}
 				case d.IDFrame():
 					call, _, err := parseIDFrame(d)
